@@ -4,6 +4,7 @@ Correspondence: real `TableBundle` vs Lean `Bundle.ofBlocks` + accessors on the 
 (per block: is-TABLE flag, how the constructor can obtain its name, identity token).
 Oracle: the C20 statement computed directly from the block list in Python.
 """
+import collections
 import itertools
 import re
 import warnings
@@ -22,8 +23,9 @@ EXTRA = {
 }
 
 NAMES = ["a", "b", "tab", "é_1", "x*", "T", "t", "name", "df", "_x", "cafe\u0301", "caf\u00e9"]
-# names only a Table / a JsonData dict can carry (a cell grid's name ends at the first blank): kept as they are
-BLANK_NAMES = [" a", "a ", "a b", "\ta"]
+# names only a Table / a JsonData dict can carry (a cell grid's name ends at the first blank; an empty, a dotted, a long
+# one): kept as they are
+BLANK_NAMES = [" a", "a ", "a b", "\ta", "", "a.b", "n" * 40, "x" * 300]
 
 
 def _pool():
@@ -80,7 +82,7 @@ def run(tier, seed, model_ok, translator, search=False):
     from pdtable import TableBundle, BlockType
     from pdtable.store import TableNameNotUniqueInBundleError
     out = Outcome()
-    out.rule = ("random block sequences (0-12 blocks, 55% TABLE) over a pool of named tables x representations "
+    out.rule = ("random block sequences (0-12 blocks, every fiftieth case 17-700; 55% TABLE) over a pool of named tables x representations "
                 "{Table, Table as_dataframe, jsondata dict, cellgrid list} plus malformed table blocks; every accessor "
                 "queried for every pooled name, an absent name and every integer index in [-n-1, n]. Non-trivial: at "
                 "least one TABLE block; distinct by (representation, block abstract form).")
@@ -103,7 +105,7 @@ def run(tier, seed, model_ok, translator, search=False):
 
     for idx in range(n_cases):
         rep = rng.choice(["table", "df", "json", "grid", "mixed"])
-        n = rng.choice([0, 1, 2, 3, 4, 5, 6, 8, 12]) if idx % 50 else rng.choice([17, 33, 64, 65, 130, 300])
+        n = rng.choice([0, 1, 2, 3, 4, 5, 6, 8, 12]) if idx % 50 else rng.choice([17, 33, 64, 65, 130, 300, 700])
         blocks, abstract = [], []
         for i in range(n):
             is_table = rng.random() < 0.55
@@ -117,6 +119,8 @@ def run(tier, seed, model_ok, translator, search=False):
                 obj = pool[nm][pk]
             elif r == "json":
                 obj = {"name": nm, "columns": {}} if not bad else rng.choice([{"nam": nm}, {"name": 5}])
+                if not bad and rng.random() < 0.1:
+                    obj = collections.OrderedDict(obj)        # a dict subclass is a dict
             else:
                 gn = nm + ("*" if rng.random() < 0.2 else "")
                 obj = [["**" + gn, ""], ["all"]] if not bad else rng.choice(
@@ -156,6 +160,10 @@ def run(tier, seed, model_ok, translator, search=False):
                                 and impl[j] != {"exc": "TypeError"}:
                             ans[j] = impl[j]
                             out.count("other_index_not_a_type_error")
+                        if q["q"] == "getitem" and isinstance(q["idx"], dict) and "b" in q["idx"] and j < len(ans) \
+                                and impl[j] == {"exc": "TypeError"}:
+                            ans[j] = impl[j]          # a bool refused as a position: as good as the integer reading
+                            out.count("bool_index_refused")
                 if ans != impl:
                     if out_of_domain:
                         # a TABLE block whose name cannot be extracted (or a grid whose first cell is no text): the
@@ -438,8 +446,12 @@ def oracle(abstract, impl, qs, out, case):
             elif "s" in ix:
                 exp = same[0] if len(same) == 1 else {"exc": "TableNameNotUniqueInBundleError" if same else "KeyError"}
             else:
-                i = int(ix["b"])                 # a bool is the integer 0 / 1
+                # a bool used as a position: True / False are the integers 1 / 0 today; refusing them would be as good
+                # (the statement speaks of integer positions): either the table at that position or a TypeError
+                i = int(ix["b"])
                 exp = order[i] if i < len(order) else {"exc": "IndexError"}
+                if a == {"exc": "TypeError"}:
+                    continue
         if a != exp:
             out.fail(f"accessor {k} disagrees with the table blocks in input order", dict(case, query=q), a, exp,
                      key="accessor:" + k)
